@@ -1,9 +1,67 @@
 (* C09 — body decoding is transparent, memory-bounded and always makes progress.
-   Statements only; proofs are in Proofs/Decode*.v. *)
-From AV Require Import Lib.Base Generated.DecodeGen Model.Decode Proofs.DecodeBasic.
+   Statements only; proofs are in Proofs/Decode*.v.
 
-(* BaseRequest.read(): what it returns never exceeds client_max_size, and what it accumulated before
-   raising is at most client_max_size plus the last readany() result. *)
+   The composed model (Model/Decode.v) is parametric in the streaming codec
+       H, hnew, hstep (decompress_sync; None = raises), havail (data_available), heof, hflush.
+   Theorems quantify over every codec that satisfies the stated law, every configuration, framing
+   (Content-Length / chunked / until-EOF), segmentation, close point and consumer schedule (`evs`), and every
+   recursion fuel.  `init c t len enc` is the state right after the message head was parsed. *)
+From AV Require Import Lib.Base Generated.DecodeGen Model.Decode Proofs.DecodeBasic Proofs.DecodeBound Proofs.DecodeInst.
+
+(* ---- bounded memory ------------------------------------------------------------------------------
+   Whatever the compression ratio: if one decompress_sync(data, max_length = m) call returns at most capf m
+   bytes (capf monotone), the transport honours pause_reading and read_bufsize >= 1, then after any history
+   the reader buffers at most   high + capf (max (read_bufsize, low))   bytes, with high = 2 * low;
+   low is the read-buffer limit or the largest chunk size the consumer asked for
+   (dg_max_length = 0 means the consumer asked for everything: read(-1)). *)
+Theorem C09_bounded :
+  forall (H : Type) (hnew : N -> H) (hstep : H -> bytes -> N -> option (option (H * bytes)))
+         (havail heof : H -> bool) (hflush : H -> option bytes) (capf : N -> N),
+    (forall h x m h' out, hstep h x m = Some (Some (h', out)) -> m <> 0 -> lenN out <= capf m) ->
+    (forall a b, a <= b -> capf a <= capf b) ->
+    forall fuel c t len enc evs (y : sys H) os,
+      c_flow c = true -> 1 <= c_limit c -> enc <> 0 ->
+      run H hnew hstep havail heof hflush fuel (init H hnew c t len enc) evs = (y, os) ->
+      let r := re (core y) in
+      dg_max_length (c_limit c) (low r) <> 0 ->
+      rsize r <= high r + capf (dg_max_length (c_limit c) (low r)) /\ high r = low r * 2.
+Proof. exact bounded_memory. Qed.
+Print Assumptions C09_bounded.
+
+(* the hypotheses are satisfiable: a concrete codec with zlib's max_length discipline *)
+Theorem C09_bounded_instance :
+  forall fuel c t len enc evs (y : ic_sys) os,
+    c_flow c = true -> 1 <= c_limit c -> enc <> 0 ->
+    ic_run fuel (ic_init c t len enc) evs = (y, os) ->
+    let r := re (core y) in
+    dg_max_length (c_limit c) (low r) <> 0 ->
+    rsize r <= high r + dg_max_length (c_limit c) (low r) /\ high r = low r * 2.
+Proof. exact bounded_memory_idcap. Qed.
+Print Assumptions C09_bounded_instance.
+
+(* a non-trivial reachable state: a 9-byte toy-gzip bomb that decodes to 600 bytes, read_bufsize 4:
+   12 = high + max_length bytes are buffered, the transport is paused, the parser holds the rest *)
+Example C09_bounded_example :
+  let y := fst (toy_run 1000 w_bomb_init [EvData w_bomb]) in
+  rsize (re (core y)) = 12 /\ tpaused (pr (core y)) = true /\ has_more (pr (core y)) = true.
+Proof. exact bomb_witness. Qed.
+Print Assumptions C09_bounded_example.
+
+(* ---- progress -------------------------------------------------------------------------------------
+   Full statement (no reachable state in which the consumer waits on an empty buffer while the
+   connection is open, the transport is reading and the parser holds unprocessed input) is REFUTED by the
+   faithful model: after a pause that ended with PAYLOAD_NEEDS_INPUT the chunked payload parser keeps
+   `_paused` set; the next data_received() returns PAYLOAD_HAS_PENDING_INPUT at the first chunk without
+   feeding anything and nobody calls resume_reading again.  Replayed on the implementation:
+   corpus/C09/stale_pause_chunked_deadlock.json (known finding C09-stale-pause-chunked-deadlock). *)
+Theorem C09_progress_refuted :
+  exists evs, stalled (fst (toy_run 100 (toy_init 1 true 8190 8190 125 true PChunked 0 0) evs)).
+Proof. exists w_stale_events. exact stale_pause_witness. Qed.
+Print Assumptions C09_progress_refuted.
+
+(* ---- client_max_size ------------------------------------------------------------------------------
+   BaseRequest.read(): what it returns never exceeds client_max_size, and what it accumulated before
+   raising is at most client_max_size plus the last readany() result (itself bounded by C09_bounded). *)
 Theorem C09_client_max_size_returned : forall cms chunks b peak,
   cms <> 0 -> request_read cms chunks [] 0 = (Some b, peak) -> lenN b <= cms /\ peak <= cms.
 Proof. exact request_read_returned. Qed.
